@@ -436,7 +436,14 @@ class Hydrodynamics:
             # so we use the smallest of 1.1*Tnucl or gamma_-*Tnucl as initial guess
             # (the latter being close to the LTE value of (gamma_-/gamma_+)*T_-).
 
-        if np.any(np.isnan(Tpm0)):
+        if (
+            not np.all(np.isfinite(Tpm0))
+            or min(Tpm0) <= self.TMinHydro
+            or max(Tpm0) >= self.TMaxHydro
+        ):
+            # The template guess is unusable (it degenerates when v+ = v-, where the
+            # template's alpha_+ vanishes): the mapping below needs temperatures
+            # strictly inside (TMinHydro, TMaxHydro)
             Tpm0 = [
                 min(1.1, 1 / np.sqrt(1 - min(vw**2, self.template.cb2))) * self.Tnucl,
                 self.Tnucl,
